@@ -5,6 +5,7 @@ import (
 	"flag"
 	"fmt"
 	"math/rand"
+	"strings"
 
 	"github.com/ClickHouse/ch-go/proto"
 
@@ -29,8 +30,12 @@ func historyKinds() []colgen.Kind {
 const rev = 54460
 
 // history ops: 0,1,2 append value #n; 3 reset; 4 prepare; 5 encode block; 6 write block + flush; 7 decode valid data;
-// 8 failed decode (truncated data); 9 append two rows at once
-const nHOps = 10
+// 8 failed decode (truncated data); 9 append two rows at once; 10 append bulkN distinct values; 11 decode a block of
+// bulkN distinct values
+const nHOps = 12
+
+// bulkN distinct-ish values are enough to leave one-byte LowCardinality keys
+var bulkN = 260
 
 type hrun struct {
 	tw   *tracew.W
@@ -63,6 +68,12 @@ func (h *hrun) do(op int) {
 		h.col.Append(h.v[0])
 		h.tw.Emit(map[string]any{"ev": "Append", "v": h.v[2], "rows": col.Rows() - 1})
 		h.tw.Emit(map[string]any{"ev": "Append", "v": h.v[0], "rows": col.Rows()})
+	case 10:
+		vs := h.bulkValues(int64(col.Rows()) + 77)
+		for _, v := range vs {
+			h.col.Append(v)
+		}
+		h.tw.Emit(map[string]any{"ev": "AppendMany", "vs": vs, "rows": col.Rows()})
 	case 3:
 		col.Reset()
 		h.tw.Emit(map[string]any{"ev": "Reset", "rows": col.Rows()})
@@ -108,11 +119,14 @@ func (h *hrun) do(op int) {
 		}
 		h.tw.Emit(map[string]any{"ev": "Encode", "how": map[int]string{5: "EncodeRawBlock", 6: "WriteColumn+Flush"}[op], "bytes": colgen.Ints(out),
 			"rows": col.Rows(), "err": errStr(err)})
-	case 7, 8:
+	case 7, 8, 11:
 		if col.Rows() != 0 {
 			return // decoding is only defined into an empty (fresh or reset) column
 		}
 		data := []any{h.v[1], h.v[0], h.v[1]}
+		if op == 11 {
+			data = h.bulkValues(1234)
+		}
 		enc := h.encodeFresh(data)
 		// skip the raw block header (columns, rows, name, type, flag) to get at state + column data
 		r := proto.NewReader(bytes.NewReader(enc))
@@ -126,16 +140,40 @@ func (h *hrun) do(op int) {
 		err := safely(func() error {
 			return blk.DecodeRawBlock(r, rev, proto.Results{{Name: "c", Data: col}})
 		})
-		if op == 7 {
+		if op != 8 {
 			read := []any{}
-			for i := 0; i < col.Rows(); i++ {
-				read = append(read, h.col.Row(i))
+			if perr := safely(func() error {
+				for i := 0; i < col.Rows(); i++ {
+					read = append(read, h.col.Row(i))
+				}
+				return nil
+			}); perr != nil {
+				read, err = []any{}, fmt.Errorf("reading the rows back: %w", perr)
 			}
 			h.tw.Emit(map[string]any{"ev": "DecodeOK", "data": data, "read": read, "rows": col.Rows(), "err": errStr(err)})
 		} else {
 			h.tw.Emit(map[string]any{"ev": "DecodeFail", "err": errStr(err)})
 		}
 	}
+}
+
+// bulkValues returns bulkN values, distinct as far as the kind has that many
+func (h *hrun) bulkValues(seed int64) []any {
+	br := rand.New(rand.NewSource(seed))
+	colgen.LCSpread = 1 << 30
+	defer func() { colgen.LCSpread = 5 }()
+	vs := make([]any, 0, bulkN)
+	seen := map[string]bool{}
+	for tries := 0; len(vs) < bulkN && tries < 20*bulkN; tries++ {
+		v := h.kind.Gen(br, 8)
+		key := fmt.Sprint(v)
+		if seen[key] && tries < 10*bulkN {
+			continue
+		}
+		seen[key] = true
+		vs = append(vs, v)
+	}
+	return vs
 }
 
 func errStr(err error) string {
@@ -151,57 +189,108 @@ func historyMain(args []string) error {
 	depth := fs.Int("depth", 4, "exhaustive history length")
 	nrand := fs.Int("rand", 100, "random long histories per kind")
 	seed := fs.Int64("seed", 1, "seed")
+	bulk := fs.Bool("bulk", true, "bulk-append histories")
+	widep := fs.Int("wide", 2, "LowCardinality kinds that get the long bulk histories")
 	shard := fs.Int("shard", 0, "this shard")
 	nshard := fs.Int("nshard", 1, "number of shards")
+	fs.IntVar(&bulkN, "bulkn", bulkN, "rows per bulk append")
 	fs.Parse(args)
 	tw, err := tracew.Create(*out)
 	if err != nil {
 		return err
 	}
-	n := 0
+	n, hi := 0, 0
+	wide := *widep
 	for ki, k := range historyKinds() {
-		if ki%*nshard != *shard {
-			continue
-		}
-		vr := rand.New(rand.NewSource(int64(ki) + 100))
 		h := &hrun{tw: tw, kind: k}
-		for i := range h.v {
-			h.v[i] = k.Gen(vr, 8)
-		}
-		begin := func() {
+		// one history: three values and a list of operations; histories are dealt to the shards round robin
+		runHist := func(v [3]any, ops []int) {
+			hi++
+			if hi%*nshard != *shard {
+				return
+			}
+			h.v = v
 			h.col = k.New()
 			tw.Emit(map[string]any{"ev": "HBegin", "tname": k.Name(), "ast": k.AST(), "rev": rev})
 			n++
+			for _, op := range ops {
+				h.do(op)
+			}
+		}
+		vr := rand.New(rand.NewSource(int64(ki) + 100))
+		var v0 [3]any
+		for i := range v0 {
+			v0[i] = k.Gen(vr, 8)
 		}
 		seq := make([]int, *depth)
 		var rec func(i int)
 		rec = func(i int) {
 			if i == *depth {
-				begin()
-				for _, op := range seq {
-					h.do(op)
-				}
+				runHist(v0, append([]int(nil), seq...))
 				return
 			}
-			for op := 0; op < nHOps; op++ {
+			for op := 0; op < 10; op++ {
 				seq[i] = op
 				rec(i + 1)
 			}
 		}
 		rec(0)
+		// bulk histories: enough distinct values to leave one-byte LowCardinality keys, with every combination of
+		// append / reset / encode / decode around them; the observation is a final encode
+		if *bulk {
+			small := []int{0, 3, 5, 7}
+			isLC := strings.Contains(k.Name(), "LowCardinality")
+			m := 2
+			if isLC && wide > 0 {
+				m = 4
+				wide--
+			}
+			idx := make([]int, m)
+			var rb func(i int)
+			rb = func(i int) {
+				if i == m {
+					for pos := 0; pos <= m; pos++ {
+						for _, big := range []int{10, 11} {
+							ops := make([]int, 0, m+2)
+							for j := 0; j < m; j++ {
+								if j == pos {
+									ops = append(ops, big)
+								}
+								ops = append(ops, small[idx[j]])
+							}
+							if pos == m {
+								ops = append(ops, big)
+							}
+							runHist(v0, append(ops, 5))
+						}
+					}
+					return
+				}
+				for o := range small {
+					idx[i] = o
+					rb(i + 1)
+				}
+			}
+			rb(0)
+		}
 		rng := rand.New(rand.NewSource(*seed*1000 + int64(ki)))
 		for j := 0; j < *nrand; j++ {
-			for i := range h.v {
-				h.v[i] = k.Gen(rng, 8)
+			var v [3]any
+			for i := range v {
+				v[i] = k.Gen(rng, 8)
 			}
-			begin()
+			var ops []int
 			for i, m := 0, 5+rng.Intn(40); i < m; i++ {
 				op := rng.Intn(nHOps)
+				if op >= 10 && rng.Intn(4) != 0 {
+					op = 9
+				}
 				if op == 8 && rng.Intn(3) != 0 {
 					op = 5
 				}
-				h.do(op)
+				ops = append(ops, op)
 			}
+			runHist(v, ops)
 		}
 	}
 	if err := tw.Close(); err != nil {
